@@ -55,6 +55,7 @@ type conn struct {
 	outFragQueue *FragQueue // queue of redis messages to be written
 
 	opened     bool             // connection opened event fired
+	closing    bool             // client asked to quit: close once every queued reply has been delivered
 	isSlave    bool             // whether redis slave node
 	initStep   int8             // number of steps required for redis connection initialization
 	initStatus InitializeStatus // redis connection initialization status
@@ -83,6 +84,7 @@ func newTCPConn(fd int, el *eventloop, localAddr, remoteAddr net.Addr, connType 
 
 func (c *conn) releaseTCP() {
 	c.opened = false
+	c.closing = false
 	c.buffer = nil
 	if addr, ok := c.localAddr.(*net.TCPAddr); ok && c.localAddr != c.loop.ln.addr {
 		bsPool.Put(addr.IP)
